@@ -36,11 +36,12 @@ func (c kase) String() string {
 }
 
 type ctx struct {
-	run   *core.Run
-	vnode string
-	work  string
-	refs  map[string]*reference
-	refMu sync.Mutex
+	run     *core.Run
+	vnode   string
+	work    string
+	refs    map[string]*reference
+	recLogs map[string][]string // "<workload>/<k>" → write sites of the recovery run
+	refMu   sync.Mutex
 
 	procs        int64 // subprocesses started
 	crashRuns    int64
@@ -54,7 +55,7 @@ type ctx struct {
 
 const (
 	procDeadline = 240 * time.Second // per subprocess; expiry = inconclusive (DESIGN §1.3)
-	stallLimit   = 45 * time.Second  // no commit for this long by the node's own watchdog (consensus timeouts are ≤ 2.1 s)
+	stallLimit   = 45 * time.Second  // no commit for this long by the node's own watchdog (consensus timeouts are ≤ 5.1 s)
 )
 
 // parallel subprocess pipelines (VERIF_C06_PAR overrides, for development on a loaded machine)
@@ -71,7 +72,7 @@ var parallel = func() int {
 
 func main() {
 	run := core.Start("C06", "fault_enumeration", "CRASHNODE")
-	c := &ctx{run: run, work: run.WorkDir(), refs: map[string]*reference{}, classes: core.NewCounter(), samples: core.NewSampler(8, run.Seed), inconcl: core.NewCounter()}
+	c := &ctx{run: run, work: run.WorkDir(), refs: map[string]*reference{}, recLogs: map[string][]string{}, classes: core.NewCounter(), samples: core.NewSampler(8, run.Seed), inconcl: core.NewCounter()}
 	os.RemoveAll(c.work)
 	os.MkdirAll(c.work, 0755)
 	c.buildVnode()
@@ -81,7 +82,10 @@ func main() {
 		if err := run.ReplayCase(&k); err != nil {
 			core.Fatal("cannot load replay: %v", err)
 		}
-		ref := c.reference(k.Workload)
+		ref := c.reference(k.Workload) // reports violations of the uncrashed run itself
+		if k.K <= 0 {
+			run.Finish(nil, nil)
+		}
 		o := c.runCase(k, ref)
 		fmt.Printf("replay %s: %s\n", k, o.summary())
 		for _, v := range o.Violations {
@@ -95,7 +99,7 @@ func main() {
 
 	kinds := []string{"mixed"}
 	if !run.Quick() {
-		kinds = []string{"empty", "evm", "kv", "valset", "mixed"}
+		kinds = []string{"empty", "evm", "kv", "valset"}
 	}
 	start := time.Now()
 	budget := 13 * time.Minute // thorough: wall-clock budget for the second level (cap reported)
@@ -248,7 +252,8 @@ func main() {
 		"crash model = process death between system calls: completed writes are visible after restart, nothing torn or reordered (DESIGN §6.4)",
 		"application genesis = repository DefaultGenesis + balances for three workload accounts, written with the repository's own functions before the first start (the repository's genesis funds nobody, so no transfer could be valid otherwise)",
 		"the workload driver is attached through the application's OnNewRound hook (exported field EVMApp.AngineHooks): batch h is handed to Angine.BroadcastTx while the consensus goroutine waits in enterNewRound(h,0); after a restart the batch of the first uncommitted height is handed in again, as a client would",
-		"real goroutines, real time: a subprocess deadline of 240 s (typical run: < 2 s) that expires counts as inconclusive, never as a verdict; a restarted node whose own watchdog reports 45 s of running time without a commit (consensus timeouts ≤ 2.1 s) is a no-progress candidate; every violation candidate is re-run 5× and reported only if it reproduces 5/5",
+		"real goroutines, real time: a subprocess deadline of 240 s (typical run: < 2 s) that expires counts as inconclusive, never as a verdict; a restarted node whose own watchdog reports 45 s of running time without a commit (consensus timeouts ≤ 5.1 s) is a no-progress candidate; every violation candidate is re-run 5× and reported only if it reproduces 5/5",
+		"interpretation of 'block store, consensus state and application agree on one height': the block store found at a restart must be able to load every block up to the height its own descriptor advertises (the descriptor is what makes a block visible, property anchors); a descriptor ahead of a complete block is reported as store-advertises-unreadable-block even though pbft's WAL replay later rewrites the block",
 		"single validator; validator-set change = the validator raises its own voting power through the admin-operation path (a second, absent validator would add proposer rounds that depend on timeouts, and the cached-proposer finding of C07/C16 would interfere)",
 	})
 }
